@@ -244,6 +244,7 @@ def run(eng, rep) -> None:
     rep.rule("R12.4", "key k is fed from attribute k; no serialised attribute dropped; every concrete Type overrides reflection")
     rep.rule("R12.5", "CLI encode names the struct describing FcpV2.reflection()")
     rep.rule("R12.6", "reflection() returns fresh records: no module-level object returned, no in-place change of another record")
+    rep.rule("R12.8", "no fixed-precision number formatting (:f/:e/:g/.N, %f, round, format) on the code that builds reflection records")
     rep.rule("R12.7", "a Type entry built inside a loop that walks a chain of types reads every value from the node the walk is at")
     rep.assume("byte-level losslessness of the codec itself is C01/C02 applied to reflection.fcp; float range metadata is stored as f64 exactly")
     g = Grammar(prog)
@@ -373,6 +374,38 @@ def run(eng, rep) -> None:
                 if any(isinstance(v, ast.Call) and isinstance(v.func, ast.Attribute) and v.func.attr == "reflection" for v in vals):
                     rep.violation("R12.6", f.file, f.qual, norm(st, 60), "the record returned by another reflection() is modified in place: if that record is shared the description of other fields changes")
     rep.ok("R12.6", "-", "-", "freshness of records", "scanned")
+    # ---- R12.8: numbers are turned into text without a fixed precision -------------------------------
+    import re as _re
+    roots8 = [x.qual for x in prog.functions.values() if x.name == "reflection" and x.cls is not None]
+    cone = set(roots8) | set(cg.reachable(roots8))
+    n_fmt = 0
+    for q in sorted(cone):
+        f8 = prog.functions.get(q)
+        if f8 is None or not f8.module.name.startswith("fcp.specs"):
+            continue
+        for n in walk_local(f8.node):
+            lossy = None
+            if isinstance(n, ast.FormattedValue) and n.format_spec is not None:
+                spec = "".join(c.value for c in n.format_spec.values if isinstance(c, ast.Constant) and isinstance(c.value, str))
+                n_fmt += 1
+                if _re.search(r"[feEgG%]$|\.\d", spec):
+                    lossy = "format spec '%s'" % spec
+            elif isinstance(n, ast.BinOp) and isinstance(n.op, ast.Mod) and isinstance(n.left, ast.Constant) and isinstance(n.left.value, str):
+                n_fmt += 1
+                if _re.search(r"%[-+ 0#]*\d*(\.\d+)?[feEgG]", n.left.value):
+                    lossy = "%%-format '%s'" % n.left.value
+            elif isinstance(n, ast.Call) and dotted(n.func) == "round":
+                n_fmt += 1
+                lossy = "round()"
+            elif isinstance(n, ast.Call) and dotted(n.func) == "format" and len(n.args) == 2 and isinstance(n.args[1], ast.Constant) and _re.search(r"[feEgG%]$|\.\d", str(n.args[1].value)):
+                n_fmt += 1
+                lossy = "format(.., '%s')" % n.args[1].value
+            elif isinstance(n, ast.Call) and isinstance(n.func, ast.Attribute) and n.func.attr == "format" and isinstance(n.func.value, ast.Constant) and isinstance(n.func.value.value, str) and _re.search(r"\{[^}]*:[^}]*([feEgG%]|\.\d)[^}]*\}", n.func.value.value):
+                n_fmt += 1
+                lossy = "'%s'.format" % n.func.value.value
+            if lossy:
+                rep.violation("R12.8", f8.file, f8.qual, norm(n, 60), "a declared number is written into the reflection record with a fixed precision (%s): digits beyond it are dropped, so the described schema differs from the declared one (str()/repr() of a float round-trips; this does not)" % lossy)
+    rep.ok("R12.8", "-", "-", "number formatting on the reflection cone", "%d functions, %d formatting sites with an explicit spec" % (len(cone), n_fmt))
     # ---- R12.7: an entry built while walking a chain of types describes the node the walk is at --------
     tkeys = {n for n, _, _ in recs.get("Type", [])}
     n_walk = 0
